@@ -66,18 +66,21 @@ Wanted(u) == IF IsLit(u.size) THEN u.maxseg = 16 ELSE u.maxseg \in BaseMaxSegs(u
 VarSource(u) == {[u EXCEPT !.source = sp[1], !.pattern = sp[2], !.encchunk = ec] :
                    sp \in ({"Data", "FileHandle", "FileName"} \X {<<1>>}) \cup ({"Chunky"} \X Patterns(u.size)),
                    ec \in EncChunks(u.size)}
-VarSecret(u) == {[u EXCEPT !.secret = s] : s \in {"a", "b", "none"}}
+\* "empty" is the empty byte string: a legal convergence secret, distinct from having none
+VarSecret(u) == {[u EXCEPT !.secret = s] : s \in {"a", "b", "empty", "none"}}
 VarKN(u) == {[u EXCEPT !.k = kn[1], !.N = kn[2]] : kn \in {<<u.k, u.N>>, <<u.k + 1, u.N>>, <<u.k, u.N + 1>>, <<u.k - 1, u.N>>} \cap
                                                          {x \in (1..8) \X (1..8) : x[1] <= x[2]}}
 VarSeg(u) == {[u EXCEPT !.maxseg = m] : m \in {u.maxseg, u.maxseg + 1, u.maxseg + u.k, 2 * u.maxseg, u.size, u.size + 1, 1000000}}
 VarData(u) == {[u EXCEPT !.variant = v] : v \in {"", "t", "h"}} \cup {[u EXCEPT !.cid = "B"]}
               \cup {[u EXCEPT !.size = z] : z \in {u.size - 1, u.size + 1} \cap 0..400000}
 Unsecret(u) == [u EXCEPT !.secret = "none"]
+EmptySecret(u) == [u EXCEPT !.secret = "empty"]
 Variations(u) == VarSource(u) \cup VarSecret(u) \cup VarKN(u) \cup VarSeg(u) \cup VarData(u)
                  \cup {[v EXCEPT !.source = "Chunky", !.pattern = <<1, 2, 3>>] : v \in VarData(u) \cup VarSeg(u)}
 
 MkPair(u, v) == [u1 |-> u, u2 |-> v, rel |-> Relation(u, v), lit1 |-> IsLit(u.size), lit2 |-> IsLit(v.size)]
-Table == UNION {{MkPair(u, v) : v \in Variations(u)} \cup {MkPair(Unsecret(u), Unsecret(u))} : u \in {b \in Bases : Wanted(b)}}
+Table == UNION {{MkPair(u, v) : v \in Variations(u)} \cup {MkPair(Unsecret(u), Unsecret(u)), MkPair(EmptySecret(u), EmptySecret(u)),
+                                                      MkPair(EmptySecret(u), [EmptySecret(u) EXCEPT !.source = "FileHandle"])} : u \in {b \in Bases : Wanted(b)}}
 
 ASSUME ndJsonSerialize(IOEnv.OUT_FILE, SetToSeq(Table))
 
